@@ -7,7 +7,7 @@
    [all_children], [gaps], [compose]) is Spec/VisitorSpec.v.  Theorems hold for
    every fuel for which the model returns a result (fuel only bounds the
    traversal of replacement nodes, which is not structural). *)
-From PyGql Require Import Lang.VisitorModel Proofs.VisitorProofs.
+From PyGql Require Import Lang.VisitorModel Proofs.VisitorProofs Proofs.VisitorTermination.
 
 (* The model refines the declarative visit: the tree it returns is the
    top-down edit [apply] under the composed decision function of the chain, and
@@ -133,6 +133,36 @@ Theorem C18_coverage_refuted : forall g,
   In g (gaps (gap_witness g)) /\ tchildren (gap_witness g) <> all_children (gap_witness g).
 Proof. exact coverage_refuted. Qed.
 Print Assumptions C18_coverage_refuted.
+
+(* Fuel adequacy.  [node_size n] counts the traversed nodes below n.  If no
+   visitor of the chain ever returns a replacement larger than the node it was
+   given (in particular: no replacements at all), fuel = node_size n is enough:
+   the model never answers OutOfFuel.  (Without such a condition a visitor can
+   keep producing bigger replacements and the traversal -- in the code as in
+   the model -- does not terminate.) *)
+Theorem C18_terminates : forall vs,
+  (forall v x m, In v vs -> v_act v x = Replace m -> node_size m <= node_size x) ->
+  forall fuel n, node_size n <= fuel -> visit fuel vs n <> OutOfFuel.
+Proof. exact visit_terminates. Qed.
+Print Assumptions C18_terminates.
+
+(* ... and for visitors that keep everything the result is Ok for every node
+   (of any class but Name) and every fuel >= node_size n: the Ok premises of
+   C18_refines, C18_balanced, C18_once, C18_identity are satisfiable for every
+   input, with an explicit fuel. *)
+Theorem C18_keep_total : forall vs,
+  (forall v m, In v vs -> v_act v m = Keep) ->
+  forall fuel n, kind_of n <> KName -> node_size n <= fuel ->
+    exists tr, visit fuel vs n = Ok (tr, Some n).
+Proof. exact visit_keep_ok. Qed.
+Print Assumptions C18_keep_total.
+
+(* The coverage guard is exact: the traversed children of a node are all its
+   non-name children in source order if and only if none of the nine named
+   gaps applies to the node.  A tenth kind of gap would contradict this. *)
+Theorem C18_coverage_exact : forall n, tchildren n = all_children n <-> gaps n = [].
+Proof. exact coverage_exact. Qed.
+Print Assumptions C18_coverage_exact.
 
 (* non-vacuity: { foo bar { x } baz } with a dispatching visitor that deletes
    foo, skips bar and replaces baz; chained with a keep-all visitor *)
